@@ -327,7 +327,8 @@ func FieldClass(owner *types.Named, field string) string {
 		return ""
 	}
 	switch owner.Obj().Name() + "." + field {
-	case "SimpleNode.children", "SimpleNode.tag", "SimpleNode.value", "SimpleNode.pointer", "Document.nodes", "Document.HasBOM", "Document.MaxLivingAge":
+	case "SimpleNode.children", "SimpleNode.tag", "SimpleNode.value", "SimpleNode.pointer", "Document.nodes", "Document.HasBOM", "Document.MaxLivingAge",
+		"simpleDocumentNode.document", "SimpleDocumentNode.document": // the back-reference: which document a record resolves its pointers in
 		return "structural"
 	case "Document.pointerCache", "Document.families",
 		"IndividualNode.cachedFamilies", "IndividualNode.cachedSpouses", "IndividualNode.families", "IndividualNode.spouses", "IndividualNode.cachedUniqueIDs",
